@@ -87,7 +87,14 @@ func VerifProvideNamed(name string, content []byte) string {
 var VerifFiles map[string]*VerifSource
 var VerifDefault *VerifSource
 
+// VerifRealReader: use the real makeReader (os.Open, compressed file readers); the
+// harness then stands in for the os and compress calls below it.
+var VerifRealReader bool
+
 func verifMakeReader(f *readFile) (*bufio.Reader, *os.File, error) {
+	if VerifRealReader {
+		return f.makeReader()
+	}
 	if s, ok := VerifFiles[f.filePath]; ok {
 		return bufio.NewReader(s), nil, nil
 	}
